@@ -44,8 +44,31 @@ fn run_chain(rt: &mut TooDee<u32>, chain: &str, prefix: &[Win], s: Coordinate, e
             write_all(&mut v);
             o
         }),
+        // the requested mutable window converted into a read-only view
+        "Mi" => guarded(|| {
+            let v: TooDeeView<'_, u32> = rt.view_mut(s, e).into();
+            observe(&v)
+        }),
+        // an explicit clone of the requested view
+        "Vc" => guarded(|| {
+            let v = rt.view(s, e);
+            #[allow(clippy::clone_on_copy)]
+            let c = Clone::clone(&v);
+            observe(&c)
+        }),
         "VV" => {
             let w1 = rt.view(prefix[0].0, prefix[0].1);
+            guarded(|| observe(&w1.view(s, e)))
+        }
+        // receivers obtained by conversion / clone
+        "IV" => {
+            let w1: TooDeeView<'_, u32> = rt.view_mut(prefix[0].0, prefix[0].1).into();
+            guarded(|| observe(&w1.view(s, e)))
+        }
+        "CV" => {
+            let w0 = rt.view(prefix[0].0, prefix[0].1);
+            #[allow(clippy::clone_on_copy)]
+            let w1 = Clone::clone(&w0);
             guarded(|| observe(&w1.view(s, e)))
         }
         "MV" => {
@@ -100,8 +123,8 @@ fn parse_win(s: &str) -> Win {
 
 fn chains_for(depth: usize) -> Vec<&'static str> {
     match depth {
-        1 => vec!["V", "M"],
-        2 => vec!["VV", "MV", "MM"],
+        1 => vec!["V", "M", "Mi", "Vc"],
+        2 => vec!["VV", "MV", "MM", "IV", "CV"],
         _ => vec!["VVV", "MVV", "MMV", "MMM"],
     }
 }
